@@ -349,6 +349,14 @@ ValidFrames ==
          \* frames with the P bit set: an APP with unaligned data, a padded TWCC, a raw frame
          EncPacket({}, [BaseAPP EXCEPT !.data = Ramp(5, 32)]), EncPacket({}, MkTWCC(1, << Rl(1, 1) >>, << Dl(1, 7) >>, TRUE)),
          << 128 + 32 + 3, 199, 0, 1, 9, 9, 9, 4 >> }
+\* one frame whose length field also covers what would otherwise be the next packets: the surplus is a run of
+\* complete, valid RTCP packets (a splitter that looks inside a frame for packets shows here)
+SwallowFrames ==
+  LET heads == { EncPacket({}, Fb("PLI")), EncPacket({}, Fb("RRR")), EncPacket({}, BaseBYE), RawOf(199, 3, Ramp(4, 50)).bytes }
+      tails == { EncPacket({}, Fb("PLI")), EncPacket({}, BaseBYE), EncPacket({}, Fb("RRR")) \o EncPacket({}, BaseBYE) }
+  IN { [i \in 1..(Len(a) + Len(b)) |-> IF i = 3 THEN ((Len(a) + Len(b)) \div 4 - 1) \div 256
+                                        ELSE IF i = 4 THEN ((Len(a) + Len(b)) \div 4 - 1) % 256
+                                        ELSE (a \o b)[i]] : a \in heads, b \in tails }
 MalformedFrames ==
   { << 128, 200, 0, 1, 1, 2, 3, 4 >>,                                     \* framed SR too short for its sender info
     << 130, 201, 0, 1, 1, 2, 3, 4 >>,                                     \* RR whose count claims two blocks
@@ -497,7 +505,12 @@ RelDom ==
     MkXR(<< [XrB("lrle") EXCEPT !.bs = 65530, !.es = 14, !.chunks = << 16389, 54613 >>] >>),
     MkXR(<< [XrB("lrle") EXCEPT !.bs = 10, !.es = 30, !.chunks = << 16389, 54613 >>] >>),
     MkXR(<< [XrB("lrle") EXCEPT !.bs = 10, !.es = 25, !.chunks = << 54613, 0 >>] >>),
-    MkXR(<< [XrB("prt") EXCEPT !.bs = 10, !.es = 12, !.times = << D4(33), D4(37) >>] >>) }
+    MkXR(<< [XrB("prt") EXCEPT !.bs = 10, !.es = 12, !.times = << D4(33), D4(37) >>] >>),
+    \* one receipt time more and one fewer than the interval has sequence numbers (an inclusive end_seq; a lost last packet)
+    MkXR(<< [XrB("prt") EXCEPT !.t = 0, !.bs = 4711, !.es = 4714, !.times = << D4(33), D4(37), D4(41), D4(45) >>], XrB("rrt") >>),
+    MkXR(<< [XrB("prt") EXCEPT !.t = 0, !.bs = 4711, !.es = 4714, !.times = << D4(33), D4(37) >>], XrB("rrt") >>),
+    MkXR(<< [XrB("prt") EXCEPT !.t = 0, !.bs = 65535, !.es = 1, !.times = << D4(33), D4(37), D4(41) >>] >>),
+    MkXR(<< [XrB("lrle") EXCEPT !.t = 0, !.bs = 10, !.es = 25, !.chunks = << 54613, 54613 >>] >>) }
 
 \* ---- RFC 3611 gives some mid-range values a meaning (127 = unavailable); two such fields at once, on a block
 \* whose other fields hold ordinary values ---------------------------------------------------------------
